@@ -537,3 +537,12 @@ Lemma tie_resolve_trailing_dot :
   = [VList [VBytes [5%N]]; VList [VBytes [5%N]]; VFault]
   /\ length l = 6%nat.
 Proof. split; vm_compute; reflexivity. Qed.
+
+(** * The separator of the SOA record data: the " " literals of putSoaRecord (6, one between
+      each pair of the 7 fields) and of updateSoaSerial (StringSplitNonEmpty(rec.Data, " ")
+      and the 6 of the reassembly). *)
+Lemma tie_SPACE :
+  forallb (fun s => bytes_eqb (bytes_of_string s) [SPACE]) p_nns_putSoaRecord_strlits = true /\
+  forallb (fun s => bytes_eqb (bytes_of_string s) [SPACE]) p_nns_updateSoaSerial_strlits = true /\
+  (List.length p_nns_putSoaRecord_strlits, List.length p_nns_updateSoaSerial_strlits) = (6%nat, 7%nat).
+Proof. split; [vm_compute; reflexivity|]. split; vm_compute; reflexivity. Qed.
